@@ -190,6 +190,26 @@ def generator_calls(spec, kind, group, tier, jit):
                     for sw in ('middle_i', 'middle_op'):
                         yield ['multi_term', 0.7 + jit, ijk, ops, ['Id', STRING.get(t, 'Id')], True, sw], True
 
+    elif group == 'longrange' and not finite:
+        # Chain, infinite MPS: operators one and two (and more) unit cells to the left / right of the switch site, where
+        # the states of the MPO graph have to be distinguished from their copies in the other unit cells.
+        ops, t = MULTI[kind][0], ty[0]
+        names = [op for op, _ in ops]
+        k = 0
+        for d in sorted({N + 1, 2 * N, 2 * N + 1, 2 * N + 2}):
+            window = N * (-(-(d + 1) // N) + (2 if N == 1 else 1))  # the term and at least one (two) more unit cells
+            for mid in sorted({1, d // 2, d - 1}):
+                pos = [0, mid, d]
+                for sw in ('middle_i', 'middle_op'):
+                    k += 1
+                    s = [1.0, {'arr': 0.7 + jit}, [0.3 + jit, 0.4]][k % 3]
+                    yield ['multi', s, [[op, [x], 0] for op, x in zip(names, pos)], True, sw], True, window
+                    if t in ('F', 'F0'):  # (any operators will do for a term given literally)
+                        yield ['multi_term', 0.7 + jit, pos, [names[0] + ' JW', names[1], names[2]], ['JW', 'JW'], True, sw], True, window
+                    else:
+                        yield ['multi_term', 0.7 + jit, pos, names, ['Id', STRING.get(t, 'Id')], True, sw], True, window
+                yield ['local', 0.9 + jit, [[names[2], [d + N, 0]], [names[0], [N, 0]], [names[1], [mid + N, 0]]], True], True, window
+
 
 GROUPS = ['onsite', 'coupling', 'multi', 'exp', 'centered', 'local', 'terms']
 
@@ -225,7 +245,10 @@ def resolve(call, lat, kind):
 def cases(spec, kind, group, tier, seed):
     """All cases of a unit: single calls with and without explicit_plus_hc, or pairs of generators."""
     jit = 0.001 * (seed % 89)
-    if group != 'pairs':
+    if group == 'longrange':
+        for call, _, window in generator_calls(spec, kind, group, tier, jit):
+            yield dict(lat=spec, kind=kind, calls=[call], explicit=False, heavy=False, window=window)
+    elif group != 'pairs':
         every = 4 if tier == 'quick' or group == 'multi' else 2  # the conversions / transformed models are checked on every 4th (2nd) case
         for k, (call, herm) in enumerate(generator_calls(spec, kind, group, tier, jit)):
             yield dict(lat=spec, kind=kind, calls=[call], explicit=False, heavy=k % every == 0)
@@ -245,6 +268,8 @@ def cases(spec, kind, group, tier, seed):
 def units(tier, seed, label):
     us = [('grid', spec, kind, group, tier, seed) for spec, kinds in lattices(tier) for kind in kinds for group in GROUPS + ['pairs']
           if next(cases(spec, kind, group, tier, seed), None) is not None]
+    us += [('grid', dict(name='Chain', Ls=[L], bc_MPS='infinite', bc=['periodic'], order='default', remove=None), kind, 'longrange', tier, seed)
+           for L in (1, 2) for kind in (['S0', 'F'] if tier == 'quick' else ['S', 'S0', 'F', 'B'])]
     return us + [('model', cls, tier, seed) for cls, _ in MODELS.cases(tier, seed)]
 
 
@@ -434,7 +459,7 @@ def check_case(case):
     lat = R.make_lattice(case['lat'], case['kind'])
     calls = [resolve(c, lat, case['kind']) for c in case['calls']]
     N, finite = lat.N_sites, lat.bc_MPS == 'finite'
-    n = N if finite else N * (3 if N <= 2 else 2)
+    n = N if finite else case.get('window') or N * (3 if N <= 2 else 2)
     ref = R.Ref(lat, 0, n)
     for c in calls:
         ref.add(c)
